@@ -194,6 +194,8 @@ def run(ctx):
     # two requesters whose objects carry EQUAL attribute values; one changes / deletes / destroys his own
     engine_check.scenario_run(ctx, "scen_engine.same_values_builder", MONITORS + [M.mon_c15], nontrivial, RULE, 24, 400, 5,
                               "equal_values_two_owners_part", seed_base=830000)
+    engine_check.scenario_run(ctx, "scen_engine.twin_builder", MONITORS + [M.mon_c15], nontrivial, RULE, 24, 400, 5,
+                              "twin_users_groups_names_part", seed_base=880000)
     fcells, fgranted = file_phase(ctx)
     ctx.coverage["policy_file_decision_cells"] = fcells
     ctx.coverage["policy_file_decision_cells_allowed"] = fgranted
